@@ -98,6 +98,10 @@ def gen_cases(tier, seed):
             cases.append({'adapter': 'create_task', 'depth': 1, 'order': [0], 'outcome': oc, 'thread': True, 'yields': yields})
     for thread in (False, True):
         cases.append({'adapter': 'create_task', 'depth': 1, 'order': [0], 'outcome': ['exc', 'creating-call-failed'], 'thread': thread, 'yields': 0, 'factory': 'raises'})
+    # the task that runs the scheduled coroutine is cancelled from outside (whoever shuts the loop down cancels what is pending): before
+    # its first step, after it, later
+    for k in (1, 2, 3):
+        cases.append({'adapter': 'create_task', 'depth': 1, 'order': [0], 'outcome': ['cancel'], 'thread': False, 'yields': 8, 'cancel_task_after': k})
     for oc in OUTCOMES:
         cases.append({'adapter': 'create_task', 'depth': 1, 'order': [0], 'outcome': oc, 'thread': False, 'yields': 1, 'default_loop': True})
     # a plain (not async) subscriber converted by convert_to_comm() that hands back a loop future (possibly resolving to further
@@ -335,6 +339,14 @@ def run_case(case):
             else:
                 start()
             out = holder['out']
+            if case.get('cancel_task_after'):
+                for _ in range(case['cancel_task_after']):
+                    loop.call_soon(loop.stop)
+                    loop.run_forever()
+                pending = [t for t in asyncio.all_tasks(loop) if not t.done()]
+                for t in pending:
+                    t.cancel()
+                obs['tasks_cancelled_from_outside'] = len(pending)
             _drive(loop, [], False, lambda: out.done(), on_loop=True)
         elif adapter == 'convert_plain' and case.get('foreign') == 'idle-thread':
             import time
